@@ -5,10 +5,22 @@ The patch is computed against the current /repo file; /repo is not modified."""
 import sys, os, difflib, json
 prop, name, rule, site, rel, desc = sys.argv[1:7]
 old, new = sys.stdin.read().split('\n=====\n')
+nth = 0
+if '@' in rel:
+    rel, nth = rel.split('@'); nth = int(nth)
 src = open('/repo/' + rel).read()
-if src.count(old) != 1:
-    sys.exit('OLD text occurs %d times in %s' % (src.count(old), rel))
-dst = src.replace(old, new.rstrip('\n') if not old.endswith('\n') else new)
+if nth == 0 and src.count(old) != 1:
+    sys.exit('OLD text occurs %d times in %s (use file@N to pick the N-th)' % (src.count(old), rel))
+if nth and src.count(old) < nth:
+    sys.exit('OLD text occurs only %d times' % src.count(old))
+repl = new.rstrip('\n') if not old.endswith('\n') else new
+if nth:
+    pos = -1
+    for _ in range(nth):
+        pos = src.index(old, pos + 1)
+    dst = src[:pos] + repl + src[pos + len(old):]
+else:
+    dst = src.replace(old, repl)
 d = ''.join(difflib.unified_diff(src.splitlines(True), dst.splitlines(True), 'a/' + rel, 'b/' + rel, n=3))
 outd = os.path.join(os.path.dirname(os.path.dirname(os.path.abspath(__file__))), 'selftest', prop)
 os.makedirs(outd, exist_ok=True)
